@@ -112,17 +112,23 @@ func c05FlowsToReturn(v ssa.Value) bool {
 // c05ZeroVerdictFact: the branch condition says that the verdict of call is "nothing matched".
 func c05ZeroVerdictFact(ft Fact, call *ssa.Call, kind string) bool {
 	if kind == "bool" {
-		return ft.Cond == ssa.Value(call) && !ft.Truth
+		return (ft.Cond == ssa.Value(call) || c05CarriesVerdict(ft.Cond, call)) && !ft.Truth
 	}
 	if kind == "slice" {
 		ds, emptyWhenTrue, ok := c05EmptyTest(ft.Cond, 0)
-		return ok && ds.field == "" && ds.root == ssa.Value(call) && emptyWhenTrue == ft.Truth
+		return ok && ds.field == "" && (ds.root == ssa.Value(call) || c05CarriesVerdict(ds.root, call)) && emptyWhenTrue == ft.Truth
 	}
 	subj, zeroWhenTrue, ok := c05CmpZero(ft.Cond)
 	if !ok {
+		// a boolean variable that carries "some matched": matched := false; if r != nil { matched = r.setWeight(..) > 0 }
+		if c05IsBool(ft.Cond.Type()) {
+			if _, isPhi := ft.Cond.(*ssa.Phi); isPhi {
+				return c05CarriesVerdict(ft.Cond, call) && !ft.Truth
+			}
+		}
 		return false
 	}
-	// the count itself, or a copy of it held in a local cell
+	// the count itself, a copy of it held in a local cell, or a variable that carries it
 	same := subj == ssa.Value(call)
 	if ld, isLd := subj.(*ssa.UnOp); isLd && ld.Op == token.MUL && !same {
 		if a, isA := ld.X.(*ssa.Alloc); isA {
@@ -130,7 +136,93 @@ func c05ZeroVerdictFact(ft Fact, call *ssa.Call, kind string) bool {
 			same = okc && len(vals) == 1 && vals[0] == ssa.Value(call)
 		}
 	}
+	if !same {
+		same = c05CarriesVerdict(subj, call)
+	}
 	return same && zeroWhenTrue == ft.Truth
+}
+
+// c05CarriesVerdict: v is a count that holds the verdict of call whenever call was executed, and is zero otherwise:
+// `n := 0; if r != nil { n = r.setWeight(..) }`, `n += r.setWeight(..)` over several routes. Every leaf reached
+// through phis, sums, conversions and local variable cells is call, another count-returning call of the same callee,
+// or the zero constant (0, false, nil); call is among them.
+func c05CarriesVerdict(v ssa.Value, call *ssa.Call) bool {
+	callee := unwrapCallee(&call.Call)
+	seen := map[ssa.Value]bool{}
+	found, ok := false, true
+	var walk func(x ssa.Value, d int)
+	walk = func(x ssa.Value, d int) {
+		if x == nil || seen[x] || !ok {
+			return
+		}
+		if d > 10 {
+			ok = false
+			return
+		}
+		seen[x] = true
+		if x == ssa.Value(call) {
+			found = true
+			return
+		}
+		switch y := x.(type) {
+		case *ssa.Const:
+			k, isK := constInt(y)
+			b, isB := constBool(y)
+			if !(isK && k == 0) && !(isB && !b) && !isNilConst(y) {
+				ok = false
+			}
+		case *ssa.Phi:
+			for _, e := range y.Edges {
+				walk(e, d+1)
+			}
+		case *ssa.BinOp:
+			if subj, zeroWhenTrue, isCmp := c05CmpZero(y); isCmp {
+				// matched := r.setWeight(..) > 0: true means "some matched"
+				if zeroWhenTrue {
+					ok = false
+					return
+				}
+				walk(subj, d+1)
+				return
+			}
+			if y.Op != token.ADD {
+				ok = false
+				return
+			}
+			walk(y.X, d+1)
+			walk(y.Y, d+1)
+		case *ssa.Convert:
+			walk(y.X, d+1)
+		case *ssa.ChangeType:
+			walk(y.X, d+1)
+		case *ssa.Call:
+			if callee == nil || unwrapCallee(&y.Call) != callee {
+				ok = false
+			}
+		case *ssa.UnOp:
+			if y.Op != token.MUL {
+				ok = false
+				return
+			}
+			switch y.X.(type) {
+			case *ssa.Alloc, *ssa.FreeVar:
+				vals, okc := c05CellStores(y.X)
+				if !okc || len(vals) == 0 {
+					ok = false
+					return
+				}
+				for _, sv := range vals {
+					walk(sv, d+1)
+				}
+			default:
+				ok = false
+			}
+		default:
+			ok = false
+		}
+	}
+	walk(v, 0)
+	return ok && found
 }
 
 func runC05W1(c *Ctx) {
